@@ -169,3 +169,113 @@ func H_C18_int_prod() {
 }
 
 var _ = math.Abs
+
+// aggregates after a history: aggregate, then one arbitrary mutator, then aggregate again — the second
+// answer is the fold over the *current* content (nothing about an earlier answer may be remembered), and
+// the aggregate calls themselves never change the list.
+func H_C18_after_mutation() {
+	maxN := 2
+	if verifTier() > 0 {
+		maxN = 3
+	}
+	verifBound("LISTN_HISTORY", maxN)
+	n := nondetIntRange(1, maxN)
+	l := NewList()
+	for i := 0; i < n; i++ {
+		if nondetIntRange(0, 1) == 0 {
+			l.Add(nondetInt())
+		} else {
+			l.Add(hFiniteFloat())
+		}
+	}
+	nWhich := 1 // quick: Sum/IntSum and Avg/IntMin; thorough adds Min/IntMax and Max (comparison forks over floats)
+	if verifTier() > 0 {
+		nWhich = 3
+	}
+	which := nondetIntRange(0, nWhich)
+	call := func() (float64, int) {
+		switch which {
+		case 0:
+			return l.Sum(), l.IntSum()
+		case 1:
+			return l.Avg(), l.IntMin()
+		case 2:
+			return l.Min(), l.IntMax()
+		default:
+			return l.Max(), l.IntSum()
+		}
+	}
+	call()
+	mid := hSnapList(l, false)
+	switch nondetIntRange(0, 8) {
+	case 0:
+		l.Add(nondetInt())
+	case 1:
+		l.Add(hFiniteFloat())
+	case 2:
+		l.Replace(nondetIntRange(0, n-1), nondetInt())
+	case 3:
+		l.Replace(nondetIntRange(0, n-1), hFiniteFloat())
+	case 4:
+		l.Delete(nondetIntRange(0, n-1))
+	case 5:
+		l.Reverse()
+	case 6:
+		l.Sort() // on a mixed list Sort keeps only the kind of the first element's family — whatever it leaves is the new content
+	case 7:
+		l.SetTF("#0", nondetInt())
+	default:
+		l.Insert(0, hFiniteFloat())
+	}
+	_ = mid
+	// reference folds over the current content
+	cur := hSnapList(l, false)
+	m := len(cur.elem)
+	ok := true
+	for _, e := range cur.elem {
+		ok = ok && (e.kind == TypeInt || e.kind == TypeFloat)
+	}
+	if !ok || m == 0 {
+		verifReach("end")
+		return
+	}
+	ref := make([]float64, m)
+	var ints []int
+	for i, e := range cur.elem {
+		if e.kind == TypeInt {
+			ref[i] = float64(e.i)
+			ints = append(ints, e.i)
+		} else {
+			ref[i] = e.f
+		}
+	}
+	sum, mn, mx := 0.0, ref[0], ref[0]
+	for i := 0; i < m; i++ {
+		sum += ref[i]
+		mn = verifIteFloat(ref[i] < mn, ref[i], mn)
+		mx = verifIteFloat(ref[i] > mx, ref[i], mx)
+	}
+	isum, imn, imx := 0, 0, 0
+	for i, v := range ints {
+		isum += v
+		if i == 0 {
+			imn, imx = v, v
+		} else {
+			imn = verifIteInt(v < imn, v, imn)
+			imx = verifIteInt(v > imx, v, imx)
+		}
+	}
+	gf, gi := call()
+	switch which {
+	case 0:
+		verifAssert(hSameFloat(gf, sum) && gi == isum, "after a mutation Sum/IntSum are the folds over the current content")
+	case 1:
+		verifAssert(hSameFloat(gf, sum/float64(m)) && gi == imn, "after a mutation Avg/IntMin are the folds over the current content")
+	case 2:
+		verifAssert(gf == mn && gi == imx, "after a mutation Min/IntMax are the folds over the current content")
+	default:
+		verifAssert(gf == mx && gi == isum, "after a mutation Max/IntSum are the folds over the current content")
+	}
+	verifAssert(hSameSlots(cur, hSnapList(l, false)), "aggregates do not modify the list")
+	verifReach("end")
+}
